@@ -30,6 +30,15 @@ EXPLANATION = ('CFG path rules (post-dominance with contradiction pruning, guard
 ASSUMPTIONS = ['noteUpdateAll visits every active note of the channel (iterator loop)', 'enumerator values are taken from the AST (Upd_*, Sustain_*)']
 
 
+def flatten(facts_):
+    for f in facts_:
+        if f[0] == 'or':
+            for alt in f[1]:
+                yield from flatten(alt)
+        elif f[0] in ('truth', 'cmp'):
+            yield f
+
+
 def views(tier):
     return ['V0', 'V1'] if tier == 'quick' else ['V0', 'V1', 'noSEQ']
 
@@ -127,7 +136,7 @@ def analyse(facts, tier):
         lambda x, gf: first_arg_is_channel(x) and const_of(x['a'][2]) == en['Sustain_ANY'] and const_of(x['a'][1]) == -1, 'killSustainingNotes(channel, -1, Sustain_ANY)')
 
     # killSustainingNotes itself: clears exactly the requested bits, erases only clean users, matches channel or all
-    ok_mask = ok_erase = False
+    ok_mask = ok_erase = ok_keydown = False
     for b, j, st in ks.cfg.stmts():
         for x in walk(st['s']):
             ap = assign_parts(x)
@@ -139,6 +148,13 @@ def analyse(facts, tier):
             gf = guard_facts(ks, b2, st2)
             if any(f[0] == 'cmp' and f[1] == '==' and mentions(f[2], member_named('sustained')) and const_of(f[3]) == 0 for f in gf):
                 ok_erase = True
+            # sostenuto marks notes whose keys are still down: releasing a hold must not remove the user of a key that is down
+            # (the note is still listed in activenotes with this chip channel)
+            if any(mentions(f[1] if f[0] == 'truth' else [f[2], f[3]], lambda y: short(callee_name(y)) in ('phys_find', 'find_activenote')) for f in flatten(guard_facts(ks, b2, st2, sd=single_defs(ks.d)))):
+                ok_keydown = True
+    obls.append(Obl('C05.R2', ks.name, 'a released hold never removes the user of a key that is still down', ks.loc, 'discharged' if ok_keydown else 'finding',
+                    why='erase guarded by "no active note owns this chip channel"' if ok_keydown else
+                    'sostenuto (and CC121) mark / release users whose keys are still down: releasing the hold erases the user and keys the chip channel off while the key is held'))
     obls.append(Obl('C05.R2', ks.name, 'clears the requested hold bits, erases only clean users', ks.loc, 'discharged' if (ok_mask and ok_erase) else 'finding',
                     why='sustained &= ~type; erase only when sustained == Sustain_None' if (ok_mask and ok_erase) else 'hold-bit clearing / erase condition not found'))
 
@@ -172,6 +188,34 @@ def analyse(facts, tier):
                             'the pedal state of a channel is cleared but users held by the pedal are never released: they keep sounding with nothing left to end them'))
     if n3 < 3:
         raise build.AnalysisBroken('C05.R3: only %d pedal-clearing sites found' % n3)
+    # R3b: the callees that R3 (and the CC121 dispatch of R2) rely on to put the pedal up really store sustain = false on every path
+    def clears_sustain(fn, depth=0):
+        cfg = fn.cfg
+        pd = cfg.pdom().get(('b', cfg.entry)) or ()
+        for b, j, st in cfg.stmts():
+            if ('b', b) not in pd and b != cfg.entry:
+                continue
+            for x in walk(st['s']):
+                ap = assign_parts(x)
+                if ap and strip(ap[0]).get('k') == 'MemberExpr' and short(strip(ap[0])['n']) == 'sustain' and const_of(ap[1]) == 0:
+                    return True
+                if depth < 2 and short(callee_name(x)) in ('resetAllControllers121',) and 'MIDIchannel' in callee_name(x):
+                    cal = facts.fns.get(callee_name(x))
+                    if cal and cal[0].name != fn.name and clears_sustain(cal[0], depth + 1):
+                        return True
+        return False
+    nb = 0
+    for nm in ('OPNMIDIplay::MIDIchannel::resetAllControllers121', 'OPNMIDIplay::MIDIchannel::resetAllControllers'):
+        fl = facts.fns.get(nm)
+        if not fl:
+            continue
+        nb += 1
+        ok = clears_sustain(fl[0])
+        obls.append(Obl('C05.R3', nm, 'puts the sustain pedal up', fl[0].loc, 'discharged' if ok else 'finding',
+                        why='stores sustain = false on every path' if ok else
+                        'the reset releases the held notes but leaves the pedal flag set: every later note-off on the channel becomes a pedal-held note that nothing ends'))
+    if nb < 2:
+        raise build.AnalysisBroken('C05.R3: MIDIchannel::resetAllControllers / resetAllControllers121 not found')
 
     # ---- R4
     no = facts.fn('OPNMIDIplay::noteOff')
@@ -253,6 +297,20 @@ def analyse(facts, tier):
     ok = chan_loop and key_loop and calls_off and wide
     obls.append(Obl('C05.R5', pn.name, 'note-off for every channel and key', pn.loc, 'discharged' if ok else 'finding',
                     why='for all channels < size(), keys 0..127: noteOff' if ok else 'panic() does not cover every channel/key (channel loop=%s, key loop=%s, note-off=%s, wide index=%s)' % (chan_loop, key_loop, calls_off, wide)))
+
+    # panic's note-off must take effect now: the deferred key-off of a short drum note (noteOff without forceNow) leaves the note
+    # active after the panic, and every caller that rebuilds the chip-channel table afterwards (C04.R6) relies on no note surviving
+    forced = []
+    for b, j, st in pn.cfg.stmts():
+        for x in calls_in(st['s']):
+            if short(callee_name(x)) == 'noteOff' and len(x.get('a', [])) >= 3:
+                forced.append(const_of(x['a'][2]))
+            elif short(callee_name(x)) in ('noteOff', 'realTime_NoteOff'):
+                forced.append(0)
+    okf = bool(forced) and all(v == 1 for v in forced)
+    obls.append(Obl('C05.R5', pn.name, 'note-off is immediate', pn.loc, 'discharged' if okf else 'finding',
+                    why='noteOff(channel, key, forceNow = true)' if okf else
+                    'panic only defers the key-off of drum notes younger than the minimal drum time: they stay active after the panic, and a chip-count / bank / chip-type change then rebuilds the chip channels under them'))
 
     # ---- R6
     sd = single_defs(nu.d)
